@@ -26,7 +26,10 @@ def gen_cancel(r, tier):
     ops = []
     for _ in range(8 if tier == "quick" else 150):
         ops.append("#case su parallel=0 cancel")
-        ops.append(f"su.open parallel=0 yield_us={r.range(30, 80)}")
+        # in a third of the cases the controllers are created before the configured value of the option is in force (they
+        # exist while it still has its built-in default, true): what counts is the value when the fans are analysed
+        # (seed C16k: the option was copied into the controller when it was created)
+        ops.append(f"su.open parallel=0 yield_us={r.range(30, 80)}" + (" createpar=1" if r.chance(0.35) else ""))
         n = r.range(2, 4)
         ids = [f"t{i}" for i in range(n)]
         for fid, q in zip(ids, r.shuffle([4, 8, 16, 32])[:n]):
